@@ -167,7 +167,7 @@ def run(ctx):
 
     def opts_fn(i, r):
         return jsgen.Opts(clean=(i % 2 == 0), unicode_idents=(i % 5 == 0), string_continuations=(i % 3 == 0))
-    progs = work.Programs(ctx, ctx.pick(300, 8000), opts_fn=opts_fn)
+    progs = work.Programs(ctx, ctx.per_shard(300, 8000), opts_fn=opts_fn)
     for i, (text, meta) in enumerate(progs):
         ind = INDENTS if (ctx.tier == 'thorough' or i % 5 == 0) else [INDENTS[i % len(INDENTS)], '  ']
         check(ctx, text, ind, meta['origin'])
